@@ -155,6 +155,7 @@ impl Context {
         let mut res = String::from(s);
         let mut changed;
         loop {
+            #[cfg(cc6502_verif)] crate::verif_hooks::tick("cpp.replace_all");
             changed = false;
             for (i, set) in self.regex_sets.iter().enumerate() {
                 for idx in set.matches(s).into_iter() {
@@ -302,6 +303,7 @@ pub fn process<I: BufRead, O: Write>(
     };
 
     while input.read_line(&mut buf)? > 0 {
+        #[cfg(cc6502_verif)] crate::verif_hooks::tick("cpp.line");
         line += 1;
 
         // Process splices by removing them...
@@ -329,6 +331,7 @@ pub fn process<I: BufRead, O: Write>(
         let mut insert_it = !in_multiline_comments;
         uncommented_buf.clear();
         while !remaining.is_empty() {
+            #[cfg(cc6502_verif)] crate::verif_hooks::tick("cpp.scan");
             if in_multiline_comments {
                 let mut s = remaining.splitn(2, "*/");
                 s.next().unwrap();
@@ -358,6 +361,7 @@ pub fn process<I: BufRead, O: Write>(
                         let mut found = false;
                         let mut cursor = left.len() + 1;
                         while !done {
+                            #[cfg(cc6502_verif)] crate::verif_hooks::tick("cpp.string");
                             let s3 = &remaining[cursor..];
                             if let Some((left, _)) = s3.split_once('"') {
                                 if !left.ends_with("\\") {
